@@ -36,11 +36,11 @@ ASSUMPTIONS = [
     'observation outside this property (not checked, reported to the integrator): hermitian_conjugated(InteractionOperator) with real-dtype tensors returns tensors that SHARE MEMORY with the argument (ndarray.T.conj() of a real array is a view), so editing the conjugate in place edits the original',
     'operators are in the state their class maintains (QubitOperator terms index-sorted, BosonOperator / QuadOperator terms index-sorted by the constructor, Majorana terms strictly increasing); `terms` dictionaries edited by hand into other shapes are out of scope',
     'comparisons whose decision has a relative margin < 1e-9 (where double rounding of abs / multiplication could matter) are discarded and counted, never compared',
-    'is_hermitian / hermitian_conjugated of dense and sparse matrices: covered for every dtype plain numpy / scipy subtraction accepts (is-hermitian-matrix stream: Model tie + exact entry-wise statement)',
+    'is_hermitian / hermitian_conjugated of dense and sparse matrices: covered for every dtype plain numpy / scipy subtraction accepts (is-hermitian-matrix stream: Model tie + exact entry-wise statement; the Model is proved equal to the entry-wise statement: is_hermitian_matrix_iff)',
 ]
 OPEN_STATEMENTS = [
     'commutes_with general path: proved in the exact regime (commutes_with_general_iff: the hypothesis is the decidable test majExactB that the driver evaluates per input and the harness counts; commutes_with_general_iff_partial keeps the abstract form) using Majorana canonicity (majorana_strings_independent); that the Model product mmul has the matrix elements of the product of the denoted operators is C01.mul_hom_majorana; outside the exact regime only the spec.eq oracle',
-    'is_hermitian: proved for FermionOperator (is_hermitian_fermion_iff: Hermitian in the Spec <=> the two normal-ordered dictionaries have equal coefficients; completeness of the coded test in the exact regime); also proved for QubitOperator (Pauli strings Hermitian and linearly independent: Hermitian <=> all coefficients real; coded test <=> every coefficient within tolerance of its conjugate); for InteractionOperator the soundness direction (coded test True => operator equals its formal adjoint in every CAR algebra, exact regime: is_hermitian_io_sound under the decidable per-input test ioExactB evaluated by the driver), completeness by the oracle stream only; for BosonOperator / QuadOperator only the Model tie and the Spec oracle (InteractionOperator: non-symmetrised storage of Hermitian operators is generated on purpose); for QuadOperator the implementation is incomplete (known finding F02e)',
+    'is_hermitian: proved for FermionOperator (is_hermitian_fermion_iff: Hermitian in the Spec <=> the two normal-ordered dictionaries have equal coefficients; completeness of the coded test in the exact regime; is_hermitian_fermion_iff_tol: on lattice inputs at a real tolerance the executed test <=> Hermitian in the Spec, under the per-input exactness hypothesis on the two normal-ordered dictionaries; is_hermitian_fermion_iff_tol_bounded / is_hermitian_boson_iff_tol_bounded discharge that hypothesis from a magnitude bound M on the normal-ordered coefficients with tol*D*M <= 1, via isclose_exact_on_bounded_lattice); also proved for QubitOperator (Pauli strings Hermitian and linearly independent: Hermitian <=> all coefficients real; coded test <=> every coefficient within tolerance of its conjugate); for InteractionOperator the soundness direction (coded test True => operator equals its formal adjoint in every CAR algebra, exact regime: is_hermitian_io_sound under the decidable per-input test ioExactB evaluated by the driver), completeness by the oracle stream only; for BosonOperator the coded test is proved equivalent to "A and its formal adjoint hermitian_conjugated(A) denote the same operator in the polynomial Spec" (is_hermitian_boson_iff at tolerance 0; is_hermitian_boson_complete / is_hermitian_boson_iff_tol for the executed function on lattice inputs; that the Model hermitian_conjugated is the adjoint for an inner product is NOT proved for bosons, only checked by the Spec oracle); for QuadOperator the soundness direction on bounded lattice inputs (is_hermitian_quad_sound: coded True => A and hermitian_conjugated(A) have equal coefficients and the same Spec action for every hbar), otherwise the Model tie and the Spec oracle (InteractionOperator: non-symmetrised storage of Hermitian operators is generated on purpose); for QuadOperator the implementation is incomplete (known finding F02e)',
     'float rounding inside abs()/hypot and tol*max(..) is outside the Model (guarded by the 1e-9 margin rule)',
 ]
 
